@@ -2,6 +2,7 @@
 
 mod checks;
 mod fw;
+mod gen;
 
 use std::time::Instant;
 
@@ -93,7 +94,10 @@ fn main() {
 
     let started = Instant::now();
     let mut report = Report::new(&ctx);
-    (entry.run)(&ctx, &mut report);
+    if let Err(p) = fw::catch(std::panic::AssertUnwindSafe(|| (entry.run)(&ctx, &mut report))) {
+        eprintln!("INFRA: the harness itself panicked: {p}");
+        std::process::exit(2);
+    }
     let code = fw::finish(&ctx, report, started);
     std::process::exit(code);
 }
